@@ -72,6 +72,14 @@ Proof. induction l as [|x l IH]; simpl; [reflexivity|]. destruct (c x); simpl; r
 Lemma existsb_map {A B} (f : A -> B) (g : B -> bool) l : existsb g (map f l) = existsb (fun x => g (f x)) l.
 Proof. induction l as [|x l IH]; simpl; [reflexivity|]. rewrite IH. reflexivity. Qed.
 
+Lemma existsb_flat_map {A B} (f : A -> list B) (g : B -> bool) l :
+  existsb g (flat_map f l) = existsb (fun x => existsb g (f x)) l.
+Proof. induction l as [|x l IH]; simpl; [reflexivity|]. rewrite existsb_app, IH. reflexivity. Qed.
+Lemma forallb_flat_map {A B} (f : A -> list B) (g : B -> bool) l :
+  forallb g (flat_map f l) = forallb (fun x => forallb g (f x)) l.
+Proof. induction l as [|x l IH]; simpl; [reflexivity|]. rewrite forallb_app, IH. reflexivity. Qed.
+Lemma Qsum_flat_map {A} (f : A -> list Q) l : Qsum (flat_map f l) == Qsum (map (fun x => Qsum (f x)) l).
+Proof. induction l as [|x l IH]; simpl; [reflexivity|]. rewrite Qsum_app, IH. reflexivity. Qed.
 Lemma existsb_filter {A} (c g : A -> bool) l : existsb g (filter c l) = existsb (fun x => c x && g x) l.
 Proof. induction l as [|x l IH]; simpl; [reflexivity|]. destruct (c x); simpl; rewrite IH; reflexivity. Qed.
 
@@ -189,6 +197,9 @@ Proof.
 Qed.
 Lemma py_list_get_seq (G : nat -> Q) n k : In k (seq 0 n) -> py_list_get (map G (seq 0 n)) (Qnat k) = G k.
 Proof. intro H. apply in_seq in H. unfold py_list_get. rewrite py_nat_Qnat. apply nth_map_seq. lia. Qed.
+
+Lemma py_repeat_single {A} (v : A) n : py_repeat [v] (Qnat n) = repeat v n.
+Proof. unfold py_repeat. rewrite py_nat_Qnat. induction n as [|n IH]; simpl; [reflexivity|]. rewrite IH. reflexivity. Qed.
 
 (* loops that collect values (yield / append) *)
 Lemma fold_collect_if {A} (c : A -> bool) (l : list A) : forall acc,
@@ -467,7 +478,7 @@ Ltac py_arith :=
   | solve [ repeat match goal with H : ?a == ?b |- _ => is_var a; rewrite H; clear H end;
             first [reflexivity | ring | lra | unfold Qdiv; ring] ]
   | solve [ unfold Qdiv; ring ]
-  | nra ].
+  | timeout 5 nra ].
 
 (* comparisons of literal dictionary keys are computed *)
 Ltac py_strings :=
@@ -501,6 +512,9 @@ Ltac py_loops :=
   | rewrite fold_any
   | rewrite existsb_map
   | rewrite existsb_filter
+  | rewrite existsb_flat_map
+  | rewrite forallb_flat_map
+  | rewrite Qsum_flat_map
   | rewrite fold_left_map
   | rewrite fold_left_filter
   | rewrite fold_first
@@ -548,7 +562,7 @@ Ltac py_cases :=
   py_bool_to_prop; py_bridge; py_rewrite_bget;
   try py_arith.
 
-Ltac py_pointwise := intros; py_unfold; py_loops; py_cases.
+Ltac py_pointwise := timeout 25 (intros; py_unfold; py_loops; py_cases).
 
 (* sums over the same list: compare the summands *)
 Ltac py_sum_ext :=
@@ -603,7 +617,7 @@ Ltac py_quant_facts :=
   end;
   cbv beta in *.
 
-Ltac py_quant := solve [ intros; py_unfold; py_loops; py_quant_facts; py_cases ].
+Ltac py_quant := timeout 20 solve [ intros; py_unfold; py_loops; py_quant_facts; py_cases ].
 
 
 (* ---------- loops with a compound state: compare with a canonical loop, component by component ---------- *)
@@ -697,7 +711,7 @@ Ltac py_fold_same :=
 
 Ltac py_fold_rel :=
   first
-  [ match goal with
+  [ timeout 40 (match goal with
     | |- context [fold_left ?F ?l ?s0] =>
         match goal with
         | |- context [fold_left ?G l ?t0] =>
@@ -706,8 +720,8 @@ Ltac py_fold_rel :=
             | _ => solve [ py_fold_rel_with F l s0 G t0 ]
             end
         end
-    end
-  | solve [ py_fold_same ] ].
+    end)
+  | timeout 30 solve [ py_fold_same ] ].
 
 Ltac py_fold_rel_rec ::= py_fold_rel.
 
@@ -746,8 +760,9 @@ Proof.
   rewrite mc_fold_count. unfold max_card. rewrite isort_map_key. ring.
 Qed.
 
-(* the same function written with enumerate and an early return: state (pending return value, cost so far) *)
-Definition mc2_step (cost : proj -> Q) (B : Q) (st : option Q * Q) (it : Q * proj) : option Q * Q :=
+(* the same function written with enumerate and an early return: state (pending return value, cost so far);
+   over any sequence of things that have a cost (projects sorted by cost, or the sorted costs themselves) *)
+Definition mc2_step {A} (cost : A -> Q) (B : Q) (st : option Q * Q) (it : Q * A) : option Q * Q :=
   let '(ret, c) := st in
   match ret with
   | Some _ => st
@@ -756,10 +771,10 @@ Definition mc2_step (cost : proj -> Q) (B : Q) (st : option Q * Q) (it : Q * pro
 Definition mc2_result (n : Q) (st : option Q * Q) : Q := match fst st with Some r => r | None => n end.
 Global Hint Unfold mc2_step mc2_result : pycanon.
 
-Lemma mc2_fold_stuck cost B L : forall r c, fold_left (mc2_step cost B) L (Some r, c) = (Some r, c).
+Lemma mc2_fold_stuck {A} (cost : A -> Q) B L : forall r c, fold_left (mc2_step cost B) L (Some r, c) = (Some r, c).
 Proof. induction L as [|x L IH]; intros r c; simpl; [reflexivity|apply IH]. Qed.
 
-Lemma mc2_fold_count cost B s : forall k c,
+Lemma mc2_fold_count {A} (cost : A -> Q) B (s : list A) : forall k c,
   mc2_result (Qnat (k + length s)) (fold_left (mc2_step cost B) (combine (map Qnat (seq k (length s))) s) (None, c))
   == Qnat (k + count_fit (map cost s) c B).
 Proof.
@@ -773,13 +788,23 @@ Proof.
     + rewrite mc2_fold_stuck. unfold mc2_result. cbn [fst]. rewrite Nat.add_0_r. reflexivity.
 Qed.
 
-Lemma mc2_canonical cost B l :
+Lemma mc2_canonical (cost : proj -> Q) B l :
   mc2_result (Qnat (length (isort (fun x y => Qleb (cost x) (cost y)) l)))
     (fold_left (mc2_step cost B) (py_enumerate (isort (fun x y => Qleb (cost x) (cost y)) l)) (None, 0))
   == Qnat (max_card (map cost l) B).
 Proof.
   unfold py_enumerate. pose proof (mc2_fold_count cost B (isort (fun x y => Qleb (cost x) (cost y)) l) 0 0) as H.
   cbn [plus] in H. rewrite H. unfold max_card. rewrite isort_map_key. reflexivity.
+Qed.
+
+(* ... over the sorted costs *)
+Lemma mc2_canonical_costs (cs : list Q) B :
+  mc2_result (Qnat (length (isort Qleb cs)))
+    (fold_left (mc2_step (fun c : Q => c) B) (py_enumerate (isort Qleb cs)) (None, 0))
+  == Qnat (max_card cs B).
+Proof.
+  unfold py_enumerate. pose proof (mc2_fold_count (fun c : Q => c) B (isort Qleb cs) 0 0) as H.
+  cbn [plus] in H. rewrite H. unfold max_card. rewrite map_id. reflexivity.
 Qed.
 
 (* ---------- descent into quantifiers: compare the bodies for an element of the list ---------- *)
@@ -841,6 +866,11 @@ Ltac py_flag_side :=
 
 Ltac py_flags := repeat first [ rewrite fold_flag_nested by py_flag_side | rewrite fold_flag by py_flag_side ]; cbn [orb].
 
+(* comparison with [mc2_step] when the accumulated cost may differ once the result is fixed (the cost updated
+   before the test instead of after it): the costs only have to agree while nothing has been returned *)
+Definition mc2_rel (s t : option Q * Q) : Prop :=
+  opt_rel Qeq (fst s) (fst t) /\ (fst t = None -> snd s == snd t).
+
 (* "no ZeroDivisionError": a boolean that must be true on every path *)
 Ltac py_safe_atoms :=
   repeat match goal with
@@ -852,7 +882,7 @@ Ltac py_safe_atoms :=
   | |- context [memb ?a ?b] => let E := fresh "E" in destruct (memb a b) eqn:E
   end.
 Ltac py_safe :=
-  solve [ intros; py_unfold; py_loops; py_safe_atoms; py_simpl; py_bool_to_prop; py_bridge;
+  timeout 20 solve [ intros; py_unfold; py_loops; py_safe_atoms; py_simpl; py_bool_to_prop; py_bridge;
           first [ reflexivity | exfalso; lra | exfalso; lia | exfalso; congruence | py_cases ] ].
 
 (* two lists built from the same list by filters / maps whose functions agree pointwise *)
@@ -865,4 +895,5 @@ Ltac py_list_ext :=
 Ltac py_auto_core := solve [ py_pointwise | py_sum_ext; py_cases | py_fold | py_quant | py_list_ext ].
 
 (* the generic tactic: values, sums, loops, quantifiers, boolean equations *)
-Ltac py_auto := first [ py_auto_core | py_safe ].
+(* every alternative is bounded: a proof that is going to fail must fail quickly *)
+Ltac py_auto := first [ timeout 25 py_auto_core | timeout 15 py_safe ].
